@@ -3088,3 +3088,169 @@ func (h *hmapType) checkCtor() {
 		}
 	}
 }
+
+// checkEntryCache: an entry pointer the collection remembers outside its table and order list (a
+// "last hit" of the previous lookup) is forgotten by every method that unlinks entries or installs
+// another table: such a pointer goes on answering lookups for a key that has been removed, cleared
+// or (after re-insertion) lives in another entry. Cache fields are the fields of the collection whose
+// type is a pointer to the table's entry type, other than the order-list sentinel.
+func (h *hmapType) checkEntryCache() {
+	st, ok := h.t.Underlying().(*types.Struct)
+	if !ok {
+		return
+	}
+	var entryT types.Type
+	for i := 0; i < st.NumFields(); i++ {
+		if st.Field(i).Name() == "table" {
+			if sl, ok := st.Field(i).Type().Underlying().(*types.Slice); ok {
+				entryT = sl.Elem()
+			}
+		}
+	}
+	if entryT == nil {
+		return
+	}
+	var caches []string
+	for i := 0; i < st.NumFields(); i++ {
+		f := st.Field(i)
+		if f.Name() == "header" || f.Name() == "table" {
+			continue
+		}
+		if types.Identical(f.Type(), entryT) {
+			caches = append(caches, f.Name())
+		}
+	}
+	c := h.name + " remembered entries"
+	if len(caches) == 0 {
+		h.r.OK(h.pre+".remove", c, "-", "no entry pointer is kept outside the table and the order list")
+		return
+	}
+	for _, fi := range h.p.MethodsOf(h.t) {
+		if fi.Decl.Body == nil {
+			continue
+		}
+		info := fi.Pkg.TypesInfo
+		rn := recvName(fi)
+		invalidates := false
+		newTable, rebuckets := false, false
+		assigned := map[string]bool{}
+		ast.Inspect(fi.Decl.Body, func(n ast.Node) bool {
+			as, ok := n.(*ast.AssignStmt)
+			if !ok {
+				return true
+			}
+			// newTab[i] = e: an entry is put into a bucket (re-bucketing keeps every entry)
+			for i, l := range as.Lhs {
+				if ix, ok := ast.Unparen(l).(*ast.IndexExpr); ok && i < len(as.Rhs) && types.Identical(info.TypeOf(ix), entryT) {
+					if rid, ok := ast.Unparen(as.Rhs[i]).(*ast.Ident); ok && rid.Name != "nil" {
+						rebuckets = true
+					}
+				}
+			}
+			for i, l := range as.Lhs {
+				ls := strings.ReplaceAll(stripSpaces(types.ExprString(l)), rn+".", "")
+				switch lv := ast.Unparen(l).(type) {
+				case *ast.SelectorExpr:
+					if id, ok := ast.Unparen(lv.X).(*ast.Ident); ok && id.Name == rn {
+						for _, cf := range caches {
+							if lv.Sel.Name == cf {
+								assigned[cf] = true
+							}
+						}
+						if lv.Sel.Name == "table" {
+							newTable = true
+						}
+					} else if types.Identical(info.TypeOf(lv), entryT) && i < len(as.Rhs) && !strings.HasPrefix(lv.Sel.Name, "link_") {
+						// prev.next = e.next: an entry leaves its chain
+						if rs, ok := ast.Unparen(as.Rhs[i]).(*ast.SelectorExpr); ok && types.Identical(info.TypeOf(rs), entryT) && rs.Sel.Name == lv.Sel.Name {
+							invalidates = true
+						}
+					}
+				case *ast.IndexExpr:
+					// tab[i] = e.next (unlink at the head) / tab[i] = nil (clear)
+					if types.Identical(info.TypeOf(lv), entryT) && i < len(as.Rhs) {
+						switch rv := ast.Unparen(as.Rhs[i]).(type) {
+						case *ast.SelectorExpr:
+							if types.Identical(info.TypeOf(rv), entryT) {
+								invalidates = true
+							}
+						case *ast.Ident:
+							if rv.Name == "nil" {
+								invalidates = true
+							}
+						}
+					}
+				}
+				_ = ls
+			}
+			return true
+		})
+		if newTable && !rebuckets {
+			invalidates = true // a fresh table without the old entries
+		}
+		if !invalidates {
+			continue
+		}
+		var miss []string
+		for _, cf := range caches {
+			if !assigned[cf] {
+				miss = append(miss, cf)
+			}
+		}
+		h.r.Check(len(miss) == 0, h.pre+".remove", h.name+"."+fi.Obj.Name()+" forgets remembered entries", h.p.Pos(fi.Decl.Pos()), "remembered entry pointers are reset",
+			fmt.Sprintf("%s unlinks entries or installs another table and leaves %v as it was: a later lookup is answered from an entry that is no longer in the collection", fi.Obj.Name(), miss))
+	}
+}
+
+// checkTableInstall: a method that installs another bucket array either moves every entry over (it
+// puts entries into buckets of the new array, as rehash does) or empties the collection (count = 0, as
+// clear does). Installing a fresh array beside a non-zero count strands every stored entry: lookups
+// miss them, puts duplicate them.
+func (h *hmapType) checkTableInstall() {
+	n := 0
+	for _, fi := range h.p.MethodsOf(h.t) {
+		if fi.Decl.Body == nil {
+			continue
+		}
+		info := fi.Pkg.TypesInfo
+		rn := recvName(fi)
+		installs, rebuckets, zeroes := false, false, false
+		ast.Inspect(fi.Decl.Body, func(m ast.Node) bool {
+			as, ok := m.(*ast.AssignStmt)
+			if !ok {
+				return true
+			}
+			for i, l := range as.Lhs {
+				switch lv := ast.Unparen(l).(type) {
+				case *ast.SelectorExpr:
+					if id, ok := ast.Unparen(lv.X).(*ast.Ident); ok && id.Name == rn {
+						if lv.Sel.Name == "table" {
+							installs = true
+						}
+						if lv.Sel.Name == "count" && i < len(as.Rhs) {
+							if k, isC := constIntOf(info, as.Rhs[i]); isC && k == 0 {
+								zeroes = true
+							}
+						}
+					}
+				case *ast.IndexExpr:
+					if i < len(as.Rhs) {
+						if _, isPtr := info.TypeOf(lv).(*types.Pointer); isPtr {
+							if rid, ok := ast.Unparen(as.Rhs[i]).(*ast.Ident); ok && rid.Name != "nil" {
+								rebuckets = true
+							}
+						}
+					}
+				}
+			}
+			return true
+		})
+		if !installs {
+			continue
+		}
+		n++
+		h.r.Check(rebuckets || zeroes, h.pre+".rehash", h.name+"."+fi.Obj.Name()+" installs a table", h.p.Pos(fi.Decl.Pos()), "entries are moved over, or the collection is emptied",
+			fi.Obj.Name()+" installs another bucket array without moving the stored entries into it and without resetting the count: every entry stored so far becomes unreachable by key")
+	}
+	_ = n
+}
